@@ -33,13 +33,14 @@ VARIABLES blk,    \* blk[e]: the block (set of edges) e belongs to
           const,  \* const[e]: e's block is held constant
           val,    \* val[e]: value of e's block
           mp, aln,
-          susp    \* inside an updates_postponed() block
-vars == <<blk, const, val, mp, aln, susp>>
+          susp,   \* inside an updates_postponed() block
+          lenA    \* branch length of the first edge: 0 = exactly on its lower bound (a free parameter), 1 = positive
+vars == <<blk, const, val, mp, aln, susp, lenA>>
 
 TypeOK == /\ blk \in [Edges -> SUBSET Edges]
           /\ const \in [Edges -> BOOLEAN]
           /\ val \in [Edges -> Vals]
-          /\ mp \in Mprobs /\ aln \in Alns \cup {BadAln} /\ susp \in BOOLEAN
+          /\ mp \in Mprobs /\ aln \in Alns \cup {BadAln} /\ susp \in BOOLEAN /\ lenA \in {0, 1}
 
 (* blocks form a partition and members of a block agree on their setting *)
 Partitioned ==
@@ -49,8 +50,8 @@ Partitioned ==
 Blocks == {blk[e] : e \in Edges}
 NFree == Cardinality({b \in Blocks : \E e \in b : ~const[e]})
 
-St  == [blk |-> blk, const |-> const, val |-> val, mp |-> mp, aln |-> aln, susp |-> susp]
-StP == [blk |-> blk', const |-> const', val |-> val', mp |-> mp', aln |-> aln', susp |-> susp']
+St  == [blk |-> blk, const |-> const, val |-> val, mp |-> mp, aln |-> aln, susp |-> susp, lenA |-> lenA]
+StP == [blk |-> blk', const |-> const', val |-> val', mp |-> mp', aln |-> aln', susp |-> susp', lenA |-> lenA']
 Log(act, args) == Emit([from |-> St, act |-> act, args |-> args, to |-> StP])
 
 Init == /\ blk = [e \in Edges |-> Edges]
@@ -59,6 +60,7 @@ Init == /\ blk = [e \in Edges |-> Edges]
         /\ mp = CHOOSE m \in Mprobs : \A n \in Mprobs : m <= n
         /\ aln = CHOOSE a \in Alns : \A b \in Alns : a <= b
         /\ susp = FALSE
+        /\ lenA = 1
 
 RECURSIVE SumOver(_, _)
 SumOver(S, f) == IF S = {} THEN 0 ELSE LET x == CHOOSE x \in S : TRUE IN f[x] + SumOver(S \ {x}, f)
@@ -74,26 +76,26 @@ SetRuleT(S, indep, c, v) ==
     /\ blk'   = [e \in Edges |-> IF e \in S THEN (IF indep THEN {e} ELSE S) ELSE blk[e] \ S]
     /\ const' = [e \in Edges |-> IF e \in S THEN c ELSE const[e]]
     /\ val'   = [e \in Edges |-> IF e \in S THEN (IF indep THEN NewVal({e}, v) ELSE NewVal(S, v)) ELSE val[e]]
-    /\ UNCHANGED <<mp, aln, susp>>
+    /\ UNCHANGED <<mp, aln, susp, lenA>>
 SetRule(S, indep, c, v) == SetRuleT(S, indep, c, v) /\ Log("SetRule", <<S, indep, c, v>>)
 
-SetMprobsT(m) == (aln # BadAln \/ susp) /\ mp' = m /\ UNCHANGED <<blk, const, val, aln, susp>>
+SetMprobsT(m) == (aln # BadAln \/ susp) /\ mp' = m /\ UNCHANGED <<blk, const, val, aln, susp, lenA>>
 SetMprobs(m) == SetMprobsT(m) /\ Log("SetMprobs", <<m>>)
 
-SetAlnT(a) == aln' = a /\ UNCHANGED <<blk, const, val, mp, susp>>
+SetAlnT(a) == aln' = a /\ UNCHANGED <<blk, const, val, mp, susp, lenA>>
 SetAln(a) == SetAlnT(a) /\ Log("SetAln", <<a>>)
 
-BeginT == ~susp /\ aln # BadAln /\ susp' = TRUE /\ UNCHANGED <<blk, const, val, mp, aln>>
+BeginT == ~susp /\ aln # BadAln /\ susp' = TRUE /\ UNCHANGED <<blk, const, val, mp, aln, lenA>>
 Begin == BeginT /\ Log("Begin", <<>>)
 
-EndT == susp /\ aln # BadAln /\ susp' = FALSE /\ UNCHANGED <<blk, const, val, mp, aln>>
+EndT == susp /\ aln # BadAln /\ susp' = FALSE /\ UNCHANGED <<blk, const, val, mp, aln, lenA>>
 End == EndT /\ Log("End", <<>>)
 
 (* a rejected input inside a batch: the block's closing update raises part-way through; the
    function is unusable until the input is repaired, and then everything set in the block counts *)
-SetBadAlnT == susp /\ aln # BadAln /\ aln' = BadAln /\ UNCHANGED <<blk, const, val, mp, susp>>
+SetBadAlnT == susp /\ aln # BadAln /\ aln' = BadAln /\ UNCHANGED <<blk, const, val, mp, susp, lenA>>
 SetBadAln == SetBadAlnT /\ Log("SetBadAln", <<>>)
-FailedEndT == susp /\ aln = BadAln /\ susp' = FALSE /\ UNCHANGED <<blk, const, val, mp, aln>>
+FailedEndT == susp /\ aln = BadAln /\ susp' = FALSE /\ UNCHANGED <<blk, const, val, mp, aln, lenA>>
 FailedEnd == FailedEndT /\ Log("FailedEnd", <<>>)
 
 (* the block is left by an exception raised after a rule was set inside it:
@@ -104,17 +106,23 @@ AbortBlockT(S, v) ==
     /\ const' = [e \in Edges |-> IF e \in S THEN FALSE ELSE const[e]]
     /\ val'   = [e \in Edges |-> IF e \in S THEN v ELSE val[e]]
     /\ susp' = FALSE
-    /\ UNCHANGED <<mp, aln>>
+    /\ UNCHANGED <<mp, aln, lenA>>
 AbortBlock(S, v) == AbortBlockT(S, v) /\ Log("AbortBlock", <<S, v>>)
 
 (* optimiser round: free blocks -> v1 -> v2 -> v1, written back *)
 CalcRoundT(v1, v2) ==
     /\ ~susp /\ aln # BadAln /\ NFree > 0 /\ v1 # v2
     /\ val' = [e \in Edges |-> IF const[e] THEN val[e] ELSE v1]
-    /\ UNCHANGED <<blk, const, mp, aln, susp>>
+    /\ UNCHANGED <<blk, const, mp, aln, susp, lenA>>
 CalcRound(v1, v2) == CalcRoundT(v1, v2) /\ Log("CalcRound", <<v1, v2>>)
 
-Next == \/ \E S \in SUBSET Edges \ {{}}, i \in BOOLEAN, c \in BOOLEAN, v \in Vals \cup {NoVal} : SetRule(S, i, c, v)
+(* set the first edge's branch length by VALUE, leaving it free: 0 puts a free parameter exactly on its bound *)
+SetLenT(v) == /\ (aln # BadAln \/ susp) /\ v \in {0, 1} /\ v # lenA /\ lenA' = v
+              /\ UNCHANGED <<blk, const, val, mp, aln, susp>>
+SetLen(v) == SetLenT(v) /\ Log("SetLen", <<v>>)
+
+Next == \/ \E v \in {0, 1} : SetLen(v)
+        \/ \E S \in SUBSET Edges \ {{}}, i \in BOOLEAN, c \in BOOLEAN, v \in Vals \cup {NoVal} : SetRule(S, i, c, v)
         \/ \E m \in Mprobs : SetMprobs(m)
         \/ \E a \in Alns : SetAln(a)
         \/ Begin \/ End \/ SetBadAln \/ FailedEnd
